@@ -70,17 +70,25 @@ Definition env_inner (L : mlists) (k : Z) : env F :=
 
 (* IndexError conditions of eval_at_control for one offset n at index k:
    explicit raises (k==-1 and n>0, k+n<0) and overflow of X[k+n] *)
+(* the final node (k = -1) is node N when offset operands are located *)
+Definition knode (L : mlists) (k n : Z) : Z :=
+  if (k =? -1)%Z then Z.of_nat (L_N L) else k.
+
 Definition offset_ok (L : mlists) (k n : Z) : bool :=
-  negb ((k =? -1) && (0 <? n))%Z && (0 <=? k + n)%Z
-  && (k + n <? Z.of_nat (length (L_X L)))%Z.
+  negb ((k =? -1) && (0 <? n))%Z && (0 <=? knode L k n + n)%Z
+  && (knode L k n + n <? Z.of_nat (length (L_X L)))%Z.
+
+Definition placeable_offs (L : mlists) (k : Z) (offs : list Z) : bool :=
+  forallb (offset_ok L k) offs.
 
 Definition placeable (L : mlists) (k : Z) (e : expr) : bool :=
-  forallb (offset_ok L k) (offsets e).
+  placeable_offs L k (offsets e).
+
+Definition eval_control (L : mlists) (k : Z) (e : expr) : F :=
+  eval (env_control L k) (fun n => env_inner L (knode L k n + n)) e.
 
 Definition eval_at_control (L : mlists) (k : Z) (e : expr) : option F :=
-  if placeable L k e
-  then Some (eval (env_control L k) (fun n => env_inner L (k + n)) e)
-  else None.
+  if placeable L k e then Some (eval_control L k e) else None.
 
 Definition env_integrator (L : mlists) (k i : nat) : env F :=
   let kz := Z.of_nat k in
@@ -114,10 +122,9 @@ Definition crow (kd : kind) (c : constr) (pt : Z) (lhs rhs : F) : row F :=
         ((lhs -! rhs) /! of_Q (c_scale c)).
 
 Definition row_at_control (L : mlists) (c : constr) (k : Z) : list (row F) :=
-  match eval_at_control L k (c_lhs c), eval_at_control L k (c_rhs c) with
-  | Some a, Some b => [crow KPath c k a b]
-  | _, _ => []          (* IndexError: instance dropped *)
-  end.
+  if placeable_offs L k (c_goffs c)
+  then [crow KPath c k (eval_control L k (c_lhs c)) (eval_control L k (c_rhs c))]
+  else [].              (* IndexError: the whole instance is dropped *)
 
 Definition row_at_integrator (L : mlists) (c : constr) (k i : nat) : row F :=
   let en := env_integrator L k i in
